@@ -191,22 +191,49 @@ def check(model, rep):
     def zero_like(v):
         return v[0] == 'num' and v[1] == 0
 
+    def has_unk(v):
+        # a part of the value the element-flow evaluation could not follow: the comparison has no verdict then
+        if isinstance(v, tuple):
+            if v and v[0] == 'unk':
+                # `branch-dependent`: the value differs between the arms of a test the convention flag does not decide - that IS a verdict
+                # (the form reads its description differently depending on the data), not an unread construct
+                return not str(v[1]).startswith('branch-dependent')
+            return any(has_unk(x) for x in v)
+        if isinstance(v, list):
+            return any(has_unk(x) for x in v)
+        return False
+
     # six-vector form, axis-angle: slot k <- element k
     f6, e6 = run_form('from6DOF', False)
     got = e6.stores.get('self.TAA', ('unk', 'no store'))
     rep.ob('R04.1', f6, 'from6DOF (axis-angle): elements 0..5 -> slots 0..5', got == ('lst', tuple(el(k) for k in range(6))),
-           'with rpy false the six-vector becomes %s; expected [x[0], x[1], x[2], x[3], x[4], x[5]]' % eshow(got))
+           'with rpy false the six-vector becomes %s; expected [x[0], x[1], x[2], x[3], x[4], x[5]]' % eshow(got), shape=has_unk(got))
     # six-vector form, rpy: position slots from elements 0..2, rotation = vector of Rx(x[3]) @ Ry(x[4]) @ Rz(x[5])
     f6, e6 = run_form('from6DOF', True)
     got = e6.stores.get('self.TAA', ('unk', 'no store'))
     P6 = ('prod', (single(3, el(3)), single(4, el(4)), single(5, el(5))))
     want = ('lst', (el(0), el(1), el(2), ('slot', P6, 3), ('slot', P6, 4), ('slot', P6, 5)))
     rep.ob('R04.1', f6, 'from6DOF (rpy): elements 0..2 -> position, rotation vector of Rx(x[3]) @ Ry(x[4]) @ Rz(x[5])', got == want,
-           'with rpy true the six-vector becomes %s; expected %s' % (eshow(got), eshow(want)))
+           'with rpy true the six-vector becomes %s; expected %s' % (eshow(got), eshow(want)), shape=has_unk(got))
     # nothing a constructor form calls rewrites the translation it stored (mutators such as angleMod may only touch the rotation rows)
     from .tmrows import rotation_only
     for form in ('from3DOF', 'from6DOF', 'from7DOF'):
         rotation_only(rep, 'R04.1', tm, M(form), 'tm.' + form, 'the constructed transform is not at the position it was given')
+    # R04.7 integer descriptions are descriptions too: no computed value is stored IN PLACE into a buffer that has the dtype of the argument
+    rep.rule('R04.7', 'methods of tm: no element / slice store of a computed value into a local array whose dtype follows the caller\'s argument '
+                      '(np.array(x) / x.reshape / x.copy without a float dtype): for an integer description the value would be truncated')
+    from .dtypeflow import InputTyped
+    n_buf = 0
+    for name_, fi_ in sorted(tm.methods.items()):
+        it_ = InputTyped(fi_)
+        n_buf += sum(1 for v_ in it_.defs if it_.array(ast.Name(id=v_, ctx=ast.Load())))
+        for node_, base_, tgt_, val_ in it_.stores():
+            rep.ob('R04.7', fi_, '%s: %s = %s' % (name_, tgt_, val_[:50]), False,
+                   '`%s` is built from the argument without a float dtype, so for a description given as integers (a list of ints, an integer array) it is an '
+                   'integer array; the in-place store %s = %s truncates the computed value - tm.%s then builds a different transform from [1, 0, 2] '
+                   'than from [1., 0., 2.]' % (base_, tgt_, val_[:60], name_), line=node_.lineno)
+    rep.count('R04.7 argument-typed local arrays in tm methods', n_buf)
+    rep.ob('R04.7', tm.methods['__init__'], 'in-place stores into argument-typed buffers (all tm methods)', True, 'none stores a computed value')
     # R04.6 the new transform owns its payload
     rep.rule('R04.6', 'constructor forms give the new transform arrays of its own: TM / TAA are never (views of) the argument, so a matrix or transform '
                       'used to build one can be reused without changing it')
@@ -216,12 +243,12 @@ def check(model, rep):
     f3, e3 = run_form('from3DOF', False)
     got = e3.stores.get('self.TAA', ('unk', 'no store'))
     ok = got[0] == 'lst' and len(got[1]) == 6 and all(zero_like(x) for x in got[1][:3]) and got[1][3:] == (el(0), el(1), el(2))
-    rep.ob('R04.1', f3, 'from3DOF (axis-angle): elements 0..2 -> slots 3..5', ok, 'with rpy false the six-vector becomes %s; expected [0, 0, 0, x[0], x[1], x[2]]' % eshow(got))
+    rep.ob('R04.1', f3, 'from3DOF (axis-angle): elements 0..2 -> slots 3..5', ok, 'with rpy false the six-vector becomes %s; expected [0, 0, 0, x[0], x[1], x[2]]' % eshow(got), shape=has_unk(got))
     f3, e3 = run_form('from3DOF', True)
     got = e3.stores.get('self.TAA', ('unk', 'no store'))
     P3 = ('prod', (single(3, el(0)), single(4, el(1)), single(5, el(2))))
     rep.ob('R04.1', f3, 'from3DOF (rpy): six-vector of Rx(x[0]) @ Ry(x[1]) @ Rz(x[2])', got == ('gtaa', P3),
-           'with rpy true the six-vector becomes %s; expected %s' % (eshow(got), eshow(('gtaa', P3))))
+           'with rpy true the six-vector becomes %s; expected %s' % (eshow(got), eshow(('gtaa', P3))), shape=has_unk(got))
     f7 = M('from7DOF')
     e7 = ElemEval(methods, f7.params[1], {})
     e7.block(f7.body(), {})
